@@ -48,6 +48,14 @@ type c03Type struct {
 	d     *tlbdesc.Desc
 	dsx   string
 	class string
+	ext   bool // the descriptor uses the extension layer (snake data, length-prefixed bytes): served by c03.rt through the xty syntax
+}
+
+func (ct *c03Type) descSx() sx.V {
+	if ct.ext {
+		return ct.d.SxX()
+	}
+	return ct.d.Sx()
 }
 
 var (
@@ -63,7 +71,8 @@ func c03Load() {
 			class, _, d := tlbdesc.Classify(e.Name, e.T)
 			ct := &c03Type{name: e.Name, t: e.T, d: d, class: class}
 			if class == tlbdesc.ClassDescribed {
-				ct.dsx = d.Sx().String()
+				ct.ext = d.HasExt()
+				ct.dsx = ct.descSx().String()
 				c03Names = append(c03Names, e.Name)
 			}
 			c03Types[e.Name] = ct
@@ -256,7 +265,7 @@ func kindName(d *tlbdesc.Desc) string {
 		tlbdesc.KBool: "bool", tlbdesc.KBits: "bits", tlbdesc.KVarUInt: "varuint", tlbdesc.KUnary: "unary", tlbdesc.KMagic: "magic",
 		tlbdesc.KMaybe: "maybe", tlbdesc.KEither: "either", tlbdesc.KEitherRef: "eitherref", tlbdesc.KRef: "ref", tlbdesc.KMaybeRef: "mayberef",
 		tlbdesc.KStruct: "struct", tlbdesc.KSum: "sum", tlbdesc.KAny: "any", tlbdesc.KCellRef: "cellref", tlbdesc.KAddr: "addr",
-		tlbdesc.KEnum: "enum", tlbdesc.KDictE: "dict"}
+		tlbdesc.KEnum: "enum", tlbdesc.KDictE: "dict", tlbdesc.KSnake: "snake", tlbdesc.KLenBytes: "lenbytes", tlbdesc.KCellSlice: "cellslice"}
 	return names[d.K]
 }
 
@@ -308,13 +317,28 @@ func c03Class(fam string, ct *c03Type, v sx.V) string {
 			extra = "large"
 		}
 	}
+	if ct.ext {
+		k = "x-" + k
+		// where the snake data ends relative to the cell boundary is what matters
+		l := len(v.String())
+		switch {
+		case l < 200:
+			extra = "small"
+		case l < 1100:
+			extra = "one-cell"
+		case l < 2200:
+			extra = "two-cells"
+		default:
+			extra = "chain"
+		}
+	}
 	return fam + "|" + pkg + "|" + k + "|" + extra
 }
 
 // c03Case emits one round-trip case and evaluates the property oracle on the
 // implementation's answer.
 func c03Case(c *Ctx, fam string, ct *c03Type, v sx.V) {
-	in := sx.L(sx.Str(ct.name), ct.d.Sx(), v)
+	in := sx.L(sx.Str(ct.name), ct.descSx(), v)
 	out := c.Emit("c03.rt", in, c03Class(fam, ct, v))
 	if out.IsA("err") {
 		return // the encoder refuses the value: allowed
@@ -389,6 +413,17 @@ func genC03(c *Ctx) {
 		}
 		for i := 0; i < c.Scale(30, 600); i++ {
 			c03Case(c, "core", ct, c03RandValue(ct, c.R))
+		}
+	}
+	// 3a. extension layer: snake data and length-prefixed bytes, lengths around the cell
+	//     boundaries (what fits depends on the fields written before)
+	for _, name := range c03Names {
+		ct := c03Types[name]
+		if !ct.ext {
+			continue
+		}
+		for i := 0; i < c.Scale(25, 300); i++ {
+			c03Case(c, "snake", ct, c03RandValue(ct, c.R))
 		}
 	}
 	// 3b. VM stacks: list convention (decode returns the reversed list)
@@ -630,7 +665,7 @@ func c03HasCursor(d *tlbdesc.Desc) bool {
 func c03Cursors(c *Ctx) {
 	var names []string
 	for _, n := range c03Names {
-		if c03HasCursor(c03Types[n].d) {
+		if c03HasCursor(c03Types[n].d) && !c03Types[n].ext {
 			names = append(names, n)
 		}
 	}
